@@ -220,6 +220,7 @@ class C13(Check):
             "workspace; InternalError, any non-pydsdl exception or no progress within the watchdog limit is a violation. "
             "distinct = hash of (fault kind, resulting exception class, target or dependency); non-trivial = the corrupted text "
             "differs from the original and the file was opened by the reader (probe)")
+    RULE = RULE + "; " + "round 7: undefined references that repeat the referrer's own name components"
     TIERS = {"quick": {"runs": 3200, "budget_s": 50}, "thorough": {"runs": 200000, "budget_s": 1200}}
     ASSUMPTIONS = ["bounded magnitude and nesting (pre-filter 'bounded()' in dsim/checks/c13.py): at most three ** per line with literal exponents of "
                    "at most 4 digits, bracket depth <= 12, text <= 12000 characters, numeric literals <= 4500 digits",
